@@ -1,0 +1,90 @@
+//go:build verif
+
+package keylock
+
+type verifInspector interface {
+	verifEntries() int
+	verifKeyCounts(key interface{}) (readers int, writers int, present bool)
+}
+
+// VerifEntries returns the number of per-key entries a locker of any of the
+// four types keeps (verification hook); -1 for an unknown type.
+func VerifEntries(l interface{}) int {
+	if v, ok := l.(verifInspector); ok {
+		return v.verifEntries()
+	}
+	return -1
+}
+
+// VerifKeyCounts returns the reader/writer reference counts of the key's entry
+// (verification hook).
+func VerifKeyCounts(l interface{}, key interface{}) (readers int, writers int, present bool) {
+	if v, ok := l.(verifInspector); ok {
+		return v.verifKeyCounts(key)
+	}
+	return -1, -1, false
+}
+
+func (d *KeyLocker) verifEntries() int {
+	d.locker.Lock()
+	defer d.locker.Unlock()
+	return len(d.lockMap)
+}
+
+func (d *KeyLocker) verifKeyCounts(key interface{}) (int, int, bool) {
+	d.locker.Lock()
+	defer d.locker.Unlock()
+	var w, ok = d.lockMap[key]
+	if !ok {
+		return 0, 0, false
+	}
+	return w.readCount, w.writeCount, true
+}
+
+func (w *KeyLockerGrp) verifEntries() int {
+	var n int
+	for _, l := range w.ls {
+		n += l.verifEntries()
+	}
+	return n
+}
+
+func (w *KeyLockerGrp) verifKeyCounts(key interface{}) (int, int, bool) {
+	return w.calculateKey(key).verifKeyCounts(key)
+}
+
+func (d *TKeyLocker[T]) verifEntries() int {
+	d.locker.Lock()
+	defer d.locker.Unlock()
+	return len(d.lockMap)
+}
+
+func (d *TKeyLocker[T]) verifKeyCounts(key interface{}) (int, int, bool) {
+	var k, isT = key.(T)
+	if !isT {
+		return -1, -1, false
+	}
+	d.locker.Lock()
+	defer d.locker.Unlock()
+	var w, ok = d.lockMap[k]
+	if !ok {
+		return 0, 0, false
+	}
+	return w.readCount, w.writeCount, true
+}
+
+func (w *TKeyLockerGrp[T]) verifEntries() int {
+	var n int
+	for _, l := range w.ls {
+		n += l.verifEntries()
+	}
+	return n
+}
+
+func (w *TKeyLockerGrp[T]) verifKeyCounts(key interface{}) (int, int, bool) {
+	var k, isT = key.(T)
+	if !isT {
+		return -1, -1, false
+	}
+	return w.calculateKey(k).verifKeyCounts(key)
+}
